@@ -414,7 +414,7 @@ func TestC12(t *testing.T) {
 	c.Extra("grid", map[string]any{"attributes": c12Attrs, "shapes": c12Shapes, "cases": len(cases)})
 	RunEnum(c, t, "grid", len(cases), func(i int) c12Case { return cases[i] }, c12Check, true)
 	// random relative paths and working directories
-	RunRapid(c, t, Sub[c12Case]{Kind: "random-paths", Quick: 1200, Thorough: 40_000,
+	RunRapid(c, t, Sub[c12Case]{Kind: "random-paths", Quick: 5000, Thorough: 40_000,
 		Gen: func(t *rapid.T) c12Case {
 			attr := rapid.SampledFrom(c12Attrs).Draw(t, "attr")
 			segs := rapid.SliceOfN(rapid.SampledFrom([]string{"a", "b c", "..", ".", "d.e", "ü", "x-y", "_z"}), 1, 4).Draw(t, "segs")
